@@ -44,7 +44,7 @@ func FreeTCPPort() int {
 // FreeBlock returns the base of n consecutive ports free for both tcp and udp on 127.0.0.1.
 func FreeBlock(n int) int {
 	for try := 0; try < 2000; try++ {
-		base := 20000 + (int(time.Now().UnixNano()/1000)+try*37)%30000
+		base := 10000 + (os.Getpid()*977+int(time.Now().UnixNano()/1000)+try*37)%21000 // below the ephemeral range: no outgoing connection of any process can squat on these
 		ok := true
 		var ls []net.Listener
 		var us []*net.UDPConn
